@@ -175,6 +175,9 @@ def run(ctx):
         ctx.ob("C15.G.bad-list-is-error", f.key, "parse_meta_list(..) fails => Err(Error::from(syn error))", ok, "%s" % [x[:200] for x in bad])
         check_dispatcher(ctx, f)
     default_expr_routing_rules(ctx, "C15")
+    # "carrying the item's span unless it already carried one": what `.with_span(item)` means
+    from .C03 import with_span_semantics
+    with_span_semantics(ctx, "C15.span")
     f = ctx.fn(T + "from_value")
     if f:
         v = inner_by_variant(ctx, f)
